@@ -58,54 +58,104 @@ def describe(tier):
         "SCM and compared with the probability of the conjunction obtained by enumerating all exogenous settings",
         "assumptions": [
             "binary functional witness SCM with hash-derived mechanisms stands in for 'all SCMs'",
-            "reading of the result: un-starred N = the event's own value of N, -N / +N literal, Sum[N] binds N and -N",
+            "reading of the result: un-starred N = the event's own value of N, -N / +N literal; Sum[N] binds N, and also the "
+            "subscript -N unless N is a variable of the event (whose subscripts stay literal)",
             "events that give one base variable two different outcome values in two worlds cannot be read by an un-starred "
             "variable; a non-zero result for them is counted as unevaluable, not judged",
         ],
     }
 
 
-def judge_expression(res, est, items, g, m, world, case, clause_prefix="", finding=None, fkey=None):
-    """Compare est with P(items) for every base assignment. Returns outcome label."""
-    try:
-        fn, free = compile_expr(est, m.card)
-    except Malformed as e:
-        res.violation(clause_prefix + "malformed", case, f"{est}: {e}")
-        return "malformed"
-    event_names = {v for v, _, _ in items}
-    stray = sorted({n for n, s in free if s is None and n not in event_names})
-    for a in base_assignments(g.nodes):
-        env, ambiguous = event_value_env(items, a)
-        need_plain = {n for n, s in free if s is None}
-        if need_plain & ambiguous:
-            return "unevaluable"
-        want = m.prob_items(ground_items(items, a))
-        # a free outcome variable that the event does not mention has no value: the result must not depend on it
+def readings_of(est, card):
+    """Admissible readings of a result expression: list of (label, fn, free).
+
+    Standard reading: Sum[N] binds N and the subscript -N.  For a quotient e / Sum[R](e') (the shape IDC* produces by
+    normalising) a second reading is admitted in which the normalising sum ranges over the plain variables R only and
+    leaves literal subscripts -N of the query alone.  A result is accepted if one reading agrees with the truth at every
+    assignment (the weakest reading under which ID* line 6 and the IDC* normalisation can both be right).
+    """
+    from y0.dsl import Fraction as YFraction
+    from y0.dsl import Sum as YSum
+
+    out = []
+    fn, free = compile_expr(est, card)
+    out.append(("standard", fn, free))
+    if isinstance(est, YFraction) and isinstance(est.denominator, YSum):
+        fnum, free_n = compile_expr(est.numerator, card)
+        finner, free_i = compile_expr(est.denominator.expression, card)
+        names = sorted(r.name for r in est.denominator.ranges)
         import itertools as itt
 
-        for svals in itt.product((0, 1), repeat=len(stray)):
+        def f_alt(env, world, fnum=fnum, finner=finner, names=names):
+            den = 0
             env2 = dict(env)
-            for n, x in zip(stray, svals):
-                env2[(n, None)] = x
-            res.transitions += 1
-            try:
-                got = fn(env2, world)
-            except MultiWorld as e:
-                res.violation(clause_prefix + "multi_world", dict(case, base=a), f"{est}: {e}", fkey=fkey)
-                return "multi_world"
-            except (Undefined, Malformed, KeyError) as e:
-                got = f"{type(e).__name__}: {e}"
-            if got != want:
-                res.violation(
-                    clause_prefix + "value",
-                    dict(case, base=a, stray={n: x for n, x in zip(stray, svals)}),
-                    f"result {est} evaluates to {got}, the event has probability {want}"
-                    + (f"; free outcome variables not in the event: {stray}" if stray else ""),
-                    finding=finding or ("non_event_variable_free" if stray else "other_pinned_behaviour"),
-                    fkey=fkey,
-                )
-                return "wrong_value"
-    return "correct"
+            for vals in itt.product(*[range(card[n]) for n in names]):
+                for n, v in zip(names, vals):
+                    env2[(n, None)] = v
+                den = den + finner(env2, world)
+            if den == 0:
+                raise Undefined("zero denominator")
+            return fnum(env, world) / den
+
+        out.append(("literal_normalisation", f_alt, free_n | {k for k in free_i if not (k[1] is None and k[0] in names)}))
+    return out
+
+
+def judge_expression(res, est, items, g, m, world, case, clause_prefix="", finding=None, fkey=None, truth_fn=None):
+    """Compare est with P(items) (or truth_fn(a)) for every base assignment. Returns outcome label."""
+    import itertools as itt
+
+    try:
+        readings = readings_of(est, m.card)
+    except Malformed as e:
+        res.violation(clause_prefix + "malformed", case, f"{est}: {e}", fkey=fkey)
+        return "malformed"
+    event_names = {v for v, _, _ in items}
+    failure = None
+    for label, fn, free in readings:
+        stray = sorted({n for n, s in free if s is None and n not in event_names})
+        bad = None
+        for a in base_assignments(g.nodes):
+            env, ambiguous = event_value_env(items, a)
+            need_plain = {n for n, s in free if s is None}
+            if need_plain & ambiguous:
+                return "unevaluable"
+            want = m.prob_items(ground_items(items, a)) if truth_fn is None else truth_fn(a)
+            if want is None:
+                continue
+            # a free outcome variable that the event does not mention has no value: the result must not depend on it
+            for svals in itt.product((0, 1), repeat=len(stray)):
+                env2 = dict(env)
+                for n, x in zip(stray, svals):
+                    env2[(n, None)] = x
+                res.transitions += 1
+                try:
+                    got = fn(env2, world)
+                except MultiWorld as e:
+                    res.violation(clause_prefix + "multi_world", dict(case, base=a), f"{est}: {e}", fkey=fkey)
+                    return "multi_world"
+                except (Undefined, Malformed, KeyError) as e:
+                    got = f"{type(e).__name__}: {e}"
+                if not isinstance(got, (Pair, str)):
+                    got = Pair((got, got))  # no probability term (One, Zero): same value on both witnesses
+                if got != want:
+                    bad = (a, dict(zip(stray, svals)), got, want, stray)
+                    break
+            if bad:
+                break
+        if bad is None:
+            return "correct" if label == "standard" else "correct_" + label
+        failure = failure or bad
+    a, sv, got, want, stray = failure
+    res.violation(
+        clause_prefix + "value",
+        dict(case, base=a, stray=sv),
+        f"result {est} evaluates to {got}, the event has probability {want}"
+        + (f"; free outcome variables not in the event: {stray}" if stray else ""),
+        finding=finding or ("non_event_variable_free" if stray else "other_pinned_behaviour"),
+        fkey=fkey,
+    )
+    return "wrong_value"
 
 
 class TwoWitness:
